@@ -276,7 +276,7 @@ def _validate_types(nodes: dict[str, HyperNode], nx_graph: nx.DiGraph) -> None:
         for value_name in edge_data.get("value_names") or ():
             checked.append((source_name, target_name, value_name))
             for other in producers.get(value_name, ()):
-                if other not in (source_name, target_name):
+                if other != source_name:
                     checked.append((other, target_name, value_name))
 
     for source_name, target_name, value_name in checked:
